@@ -52,6 +52,12 @@ def scenarios(tier, seed=0):
         for kw in ({"YldWC": 85.5}, {"YldWC": 12.5}, {"YldWC": 20.25, "WP": 17.5, "WPy": 82.5, "HI0": 0.475}):
             spec = A.catalogue_spec(name, word="warm", irr="smt", iwc="FC", cropkw=kw)
             yield {"kind": "spec", "spec": spec, "label": ["fractional-overrides", name, kw]}
+    # caps that bind every day: a constant depth above the daily maximum, a small daily maximum under a seasonal cap (the seasonal total
+    # of the summary must be the sum of what the daily column reports)
+    for ck in scaled[:3]:
+        for irr in ("const15max10", "smt_max6_season100"):
+            for win in ("w2", "w3"):
+                yield {"kind": "config", "config": A._b(crop=ck, irr=irr, win=win, word="dry", iwc="WP", soil="SandyLoam")}
     # a season cut by the end date: window ends mid-season of the last scheduled season
     for ck in scaled[:4]:
         c = A._b(crop=ck, irr="smt", win="w2", word="normal")
